@@ -958,7 +958,11 @@ func runC18(c *vh.Ctx) {
 	c.Rule("case = (generated program: items BEGIN/pattern-action/END/function in shuffled source order, statements simple | jump | if[/else] | " +
 		"while | for | for-in | do-while | block nested to depth 5, one statement per line with random indentation; split over 1-3 -f files; fixed 4-line " +
 		"input); each case = 5 runs of the binary (plain, set, count, twin, -d) [+3 for append]; non-trivial = the program has a loop or a jump and at " +
-		"least 4 basic blocks")
+		"least 4 basic blocks. Stream `idioms` (idioms.go): programs assembled from probes = set-up + one syntactic idiom (for-in / while / for / do / if / ?: / getline " +
+		"loop with a body of 0, 1 or 2 statements in every lay-out, fused statements and comparisons, rules whose whole action is an idiom) + an observation of " +
+		"the loop variable (unset / empty / key), array lengths, counters, NR, NF, $0 and the exit status, placed in BEGIN, rules, END or a function; 3 runs " +
+		"of the binary each (plain, set, count): stdout, stderr and exit status must be equal; every for-in probe's first observation is also compared with the " +
+		"Lean model of the for-in idioms for every order of the keys")
 	scratch, err := os.MkdirTemp("", "c18-")
 	if err != nil {
 		panic(err)
@@ -1099,6 +1103,7 @@ func runC18(c *vh.Ctx) {
 		}
 		reqs = append(reqs, p.leanReq())
 	}
+	runIdioms(c, scratch)
 	if c.HasLean() {
 		for i, a := range c.LeanBatch(reqs) {
 			cs, r := cases[i], results[i]
